@@ -65,7 +65,7 @@ def cases(draw, max_n=30):
         rows.append([t, draw(st.integers(lo, hi)), hi, lo, draw(st.integers(lo, hi)), draw(st.integers(0, 9))])
         t += draw(st.sampled_from((step, step, step, 0, 1, 3 * step)))
     preload = min(n, draw(st.sampled_from((0, 1, n // 2, n))))
-    return {"tz": tz, "tf": tf, "stream": rows, "preload": preload, "chunks": draw(gs.chunking(n - preload)), "fill": draw(st.booleans()), "on_transition": on_transition, "mode": draw(st.sampled_from(("manager", "manager", "indicator", "hexital"))), "lifespan": draw(st.sampled_from((None, None, None, 2 * tfs, 3600, 5 * tfs + 7)))}
+    return {"tz": tz, "tf": tf, "stream": rows, "preload": preload, "chunks": draw(gs.chunking(n - preload)), "fill": draw(st.booleans()), "on_transition": on_transition, "mode": draw(st.sampled_from(("manager", "manager", "indicator", "hexital"))), "lifespan": draw(st.sampled_from((None, None, None, 2 * tfs, 3600, 5 * tfs + 7))), "micro": draw(st.sampled_from((False, False, False, True)))}
 
 
 def _collapse(case):
@@ -74,6 +74,8 @@ def _collapse(case):
     from hexital.indicators import HighLowAverage
 
     rows = case["stream"]
+    if case.get("micro"):  # sub-second timestamps: the library truncates them, whatever the zone
+        rows = [[r[0] + 0.800001 + 0.001 * i] + r[1:] for i, r in enumerate(rows)]  # stays non-decreasing, < 1 s
     pre = min(case.get("preload", 0), len(rows))
     mode = case.get("mode", "manager")
     fill = bool(case.get("fill"))
@@ -114,20 +116,26 @@ def run_case(case) -> Result:
     labels.append("zone:" + tz.split(",")[0])
     want = rr.resample(case["stream"], tfs, fill=bool(case.get("fill")))
     viol = []
-    try:
-        utc = _under("UTC", lambda: _collapse(case))
-    except Exception as exc:
-        return Result([raises(exc, "UTC")], False, labels)
-    try:
-        got = _under(tz, lambda: _collapse(case))
-    except Exception as exc:
-        v = raises(exc, "zone")
-        v.detail = f"TZ={tz}: " + v.detail
-        return Result([v], nontrivial, labels)
+
+    def outcome(tzname):
+        """the candles, or the kind of failure: the property is about the two zones behaving alike"""
+        try:
+            return _under(tzname, lambda: _collapse(case))
+        except Exception as exc:
+            v = raises(exc, "zone")
+            return ("fails", v.kind, v.site)
+
+    utc = outcome("UTC")
+    got = outcome(tz)
+    if isinstance(utc, tuple) and got == utc:
+        return Result([], False, labels + ["fails_alike_under_utc"])  # not a question of time zones
     if got != utc:
-        k = next((i for i, (a, b) in enumerate(zip(got, utc)) if a != b), min(len(got), len(utc)))
-        viol.append(Violation("differs-between-zones", "collapse", f"TZ={tz} tf={case['tf']} candle {k}: {got[k] if k < len(got) else None} vs UTC {utc[k] if k < len(utc) else None} (len {len(got)} vs {len(utc)})", "zone"))
-    elif got != want and not case.get("lifespan"):
+        if isinstance(got, tuple) or isinstance(utc, tuple):
+            viol.append(Violation("differs-between-zones", "outcome", f"TZ={tz} tf={case['tf']}: {str(got)[:160]} vs UTC {str(utc)[:160]}", "zone"))
+        else:
+            k = next((i for i, (a, b) in enumerate(zip(got, utc)) if a != b), min(len(got), len(utc)))
+            viol.append(Violation("differs-between-zones", "collapse", f"TZ={tz} tf={case['tf']} candle {k}: {got[k] if k < len(got) else None} vs UTC {utc[k] if k < len(utc) else None} (len {len(got)} vs {len(utc)})", "zone"))
+    elif got != want and not case.get("lifespan") and not case.get("micro"):
         k = next((i for i, (a, b) in enumerate(zip(got, want)) if a != b), min(len(got), len(want)))
         viol.append(Violation("differs-from-reference", "collapse", f"TZ={tz} candle {k}: {got[k] if k < len(got) else None} vs {want[k] if k < len(want) else None}", "zone"))
     return Result(viol, nontrivial, labels)
